@@ -159,7 +159,10 @@ def explore(ctx, spec, depth, max_dev=99, max_states=None, label=None):
         items = [(spec, h, dev) for h, dev in frontier]
         res = ctx.pmap("expand", items, common={"mod": modname, "max_dev": max_dev}, modname="mc.seq", chunk=max(1, min(16, len(items) // (ctx.workers * 3) or 1)))
         nxt = []
-        for (h, _), outs in zip(frontier, res):
+        for (h, hdev), outs in zip(frontier, res):
+            if isinstance(outs, dict) and outs.get("__crash__"):
+                ctx.violation(core.problem("worker process died (segfault/abort in compiled code?) while expanding state %r" % (h,), root="worker-crash", label=label), {"engine": "seq-expand", "spec": spec, "history": list(h)})
+                continue
             for e, dev, status, key, probs, outcome, nontriv in outs:
                 ctx.transitions += 1
                 ctx.evaluations += 1
@@ -198,6 +201,11 @@ def replay(modname, case_rec):
     on; returns the problems of the first violating step."""
     spec = case_rec["spec"]
     hist = list(core.tuplify(case_rec["history"]))
+    if case_rec.get("engine") == "seq-expand":
+        # a recorded worker crash: run every enabled event from that state
+        # (in a fresh interpreter this dies again if the crash is real)
+        outs = expand((spec, hist, 0), {"mod": modname, "max_dev": 99})
+        return [p for o in outs for p in o[4]]
     case = get_case(modname, spec)
     w0 = case.build()
     probs = case.check(w0, ("init",), None, None)
